@@ -352,7 +352,19 @@ def r2_user_code_calls(ctx):
     rep.note('escape_sets', {CHECK: sorted(map(str, toks)), CGW: sorted(map(str, summ.escapes(ctx.func(CGW))))})
     # per user-code call site: is it wrapped?
     n_sites = 0
-    for q in (CHECK, CGW):
+    # DoctestPart.check and everything it calls inside the checker / part modules (a wrapper extracted around repr() is followed)
+    closure = [CHECK]
+    i = 0
+    while i < len(closure) and len(closure) < 40:
+        fq = ctx.func(closure[i])
+        i += 1
+        for c in walk_scope(fq.node):
+            if isinstance(c, ast.Call):
+                r = ctx.res.resolve_call(fq, c)
+                for x in (r[1] if r[0] == 'repo' else []):
+                    if x.module.name in ('xdoctest.checker', 'xdoctest.doctest_part') and x.qualname not in closure:
+                        closure.append(x.qualname)
+    for q in closure:
         f = ctx.func(q)
         pol = UserCodePolicy(ctx.prog, f, ctx.res, summ)
         g = CFG(f.node, pol, label=q)
@@ -377,7 +389,7 @@ def r2_user_code_calls(ctx):
                            'an exception raised by the user object is converted to a class RUN has a dedicated handler for' if not bad else
                            'this call runs code of the evaluated object unguarded: its exception leaves DoctestPart.check as a plain Exception without a doctest '
                            'frame (its sibling call is wrapped into ExtractGotReprException)', anchor=q)
-    rep.floor('C09.R2', 'user-code calls in the checker', n_sites, 2)
+    rep.floor('C09.R2', 'user-code calls in the checker', n_sites, 1)
     rep.ob('C09.R2', ctx.loc(fcheck, fcheck.node), 'escape set of DoctestPart.check', not leaked,
            'only %s (and non-Exception BaseExceptions) can leave the check' % [d.split('.')[-1] for d in DEDICATED] if not leaked else
            'classes other than the two RUN handles can leave the check: %s' % leaked, anchor=CHECK)
